@@ -103,9 +103,10 @@ theorem getD_set_bool (l : List Bool) (c x : Nat) (v : Bool) :
     simp [h, this]
 
 /-- a connection with the same relevant fields satisfies the same invariant -/
-theorem ConnInv.congr {cfg : Cfg} {w : World} {p s : Nat} {c c' : Conn} (h : ConnInv cfg w p s c)
-    (hcore : ConnCore c c') (hsub : c'.sub = c.sub) (hused : c'.used = c.used) : ConnInv cfg w p s c' := by
-  obtain ⟨e1, e2, e3, e4, e5, e6, e7⟩ := hcore
+theorem ConnInv.congr0 {cfg : Cfg} {w : World} {p s : Nat} {c c' : Conn} (h : ConnInv cfg w p s c)
+    (e1 : c'.pid = c.pid) (e2 : c'.sid = c.sid) (e3 : c'.cap = c.cap) (e4 : c'.comp = c.comp)
+    (e5 : c'.borrow = c.borrow) (e6 : c'.sAtt = c.sAtt)
+    (hsub : c'.sub = c.sub) (hused : c'.used = c.used) : ConnInv cfg w p s c' := by
   refine ⟨⟨by rw [e3]; exact h.ok.cap1, by rw [e3]; exact h.ok.capM, by rw [hsub, e3]; exact h.ok.subLe,
       by rw [e5]; exact h.ok.borLe, by rw [hsub, e5, e4, e3]; exact h.ok.tot⟩, h.hasP, h.hasS, ?_, ?_, ?_, ?_, ?_⟩
   · intro S hS; rw [e5]; exact h.held S hS
@@ -118,5 +119,9 @@ theorem ConnInv.congr {cfg : Cfg} {w : World} {p s : Nat} {c c' : Conn} (h : Con
     rw [hsub, e4, e5, hused]; exact this
   · intro ha; exact h.inSlot (e6 ▸ ha)
   · intro P hP; rw [hused]; exact h.usedLen P hP
+
+theorem ConnInv.congr {cfg : Cfg} {w : World} {p s : Nat} {c c' : Conn} (h : ConnInv cfg w p s c)
+    (hcore : ConnCore c c') (hsub : c'.sub = c.sub) (hused : c'.used = c.used) : ConnInv cfg w p s c' :=
+  h.congr0 hcore.pid hcore.sid hcore.cap hcore.comp hcore.borrow hcore.sAtt hsub hused
 
 end Iox2.PubSub.C08
